@@ -53,8 +53,8 @@ type C15Case struct {
 
 func (c C15Case) canon() string { b, _ := json.Marshal(c); return string(b) }
 
-// msgSnapshot renders everything a message reports: Data(), Tags(), ToMapStr().
-func msgSnapshot(m *auparse.AuditMessage) string {
+// coMsgSnapshot renders everything a message reports: Data(), Tags(), ToMapStr().
+func coMsgSnapshot(m *auparse.AuditMessage) string {
 	var b strings.Builder
 	b.WriteString(coal.View(m))
 	ms := m.ToMapStr()
@@ -69,14 +69,14 @@ func msgSnapshot(m *auparse.AuditMessage) string {
 	return b.String()
 }
 
-type heldEvent struct {
+type coHeldEvent struct {
 	ev   *aucoalesce.Event
 	perr error
 	flat string // as it read when it was returned / last resolved
 	js   string // encoding/json rendering at that time (covers any field the flattening might miss)
 }
 
-func evJSON(ev *aucoalesce.Event) string {
+func coEvJSON(ev *aucoalesce.Event) string {
 	b, err := json.Marshal(ev)
 	if err != nil {
 		return "json-error:" + err.Error()
@@ -155,8 +155,8 @@ func c15Lookups(ev *aucoalesce.Event, own bool) string {
 	return u + "/" + g + "/" + un + "/" + gn
 }
 
-// wasNow names the first field of a flattened event that changed.
-func wasNow(was, now string) string {
+// coWasNow names the first field of a flattened event that changed.
+func coWasNow(was, now string) string {
 	a, b := strings.Split(was, ";"), strings.Split(now, ";")
 	for i := 0; i < len(a) && i < len(b); i++ {
 		if a[i] != b[i] {
@@ -210,10 +210,10 @@ func runC15History(m *common.Model, c C15Case) (r c15Result) {
 	ref := make([][]string, len(twins))
 	for g := range twins {
 		for _, t := range twins[g] {
-			ref[g] = append(ref[g], msgSnapshot(t))
+			ref[g] = append(ref[g], coMsgSnapshot(t))
 		}
 	}
-	var held []*heldEvent
+	var held []*coHeldEvent
 	first := map[int]string{}
 	used := map[int]bool{}
 	ownUsers, ownGroups := aucoalesce.NewUserCache(time.Minute), aucoalesce.NewGroupCache(time.Minute)
@@ -231,11 +231,11 @@ func runC15History(m *common.Model, c C15Case) (r c15Result) {
 				continue
 			}
 			if now := coal.Flatten(h.ev, h.perr); now != h.flat {
-				r.clause = fmt.Sprintf("isolation: event %d, returned earlier, reads differently after %s: %s", j, what, wasNow(h.flat, now))
+				r.clause = fmt.Sprintf("isolation: event %d, returned earlier, reads differently after %s: %s", j, what, coWasNow(h.flat, now))
 				r.impl = now
 				return false
 			}
-			if now := evJSON(h.ev); now != h.js {
+			if now := coEvJSON(h.ev); now != h.js {
 				r.clause = fmt.Sprintf("isolation: event %d, returned earlier, marshals differently after %s", j, what)
 				r.impl = now
 				return false
@@ -246,7 +246,7 @@ func runC15History(m *common.Model, c C15Case) (r c15Result) {
 				continue
 			}
 			for i, mm := range msgs[g] {
-				if now := msgSnapshot(mm); now != ref[g][i] {
+				if now := coMsgSnapshot(mm); now != ref[g][i] {
 					r.clause = fmt.Sprintf("inputs intact: message %d of group %d reports something else after %s: %s / %s", i, g, what, now, ref[g][i])
 					r.impl = now
 					return false
@@ -281,7 +281,7 @@ func runC15History(m *common.Model, c C15Case) (r c15Result) {
 			used[op.G] = true
 			if f, ok := first[op.G]; ok {
 				if f != obs {
-					r.clause = fmt.Sprintf("repeatable: %s yields a different event than the first time: %s", what, wasNow(f, obs))
+					r.clause = fmt.Sprintf("repeatable: %s yields a different event than the first time: %s", what, coWasNow(f, obs))
 					r.impl = obs
 					return
 				}
@@ -302,7 +302,7 @@ func runC15History(m *common.Model, c C15Case) (r c15Result) {
 				ask(fmt.Sprintf("coal touch %d", id))
 			}
 			if ev != nil {
-				held = append(held, &heldEvent{ev: ev, perr: coal.PrimaryErr(msgs[op.G]), flat: obs, js: evJSON(ev)})
+				held = append(held, &coHeldEvent{ev: ev, perr: coal.PrimaryErr(msgs[op.G]), flat: obs, js: coEvJSON(ev)})
 			}
 		case "res", "resown":
 			if len(held) == 0 {
@@ -329,7 +329,7 @@ func runC15History(m *common.Model, c C15Case) (r c15Result) {
 			}
 			what := fmt.Sprintf("op %d (ResolveIDs on event %d)", oi, e)
 			h.flat = coal.Flatten(h.ev, h.perr)
-			h.js = evJSON(h.ev)
+			h.js = coEvJSON(h.ev)
 			li := ask(fmt.Sprintf("coal resolve %d %s", e, lk))
 			exps = append(exps, expect{li, h.flat, what})
 			if !checkIsolation(e, what) {
@@ -353,7 +353,7 @@ func runC15History(m *common.Model, c C15Case) (r c15Result) {
 	r.lines = len(exps)
 	for _, e := range exps {
 		if replies[e.line] != e.want {
-			r.corr = fmt.Sprintf("Model.CoalesceHeap disagrees at %s: %s", e.what, firstDiff(e.want, replies[e.line]))
+			r.corr = fmt.Sprintf("Model.CoalesceHeap disagrees at %s: %s", e.what, coFirstDiff(e.want, replies[e.line]))
 			r.impl, r.model = e.want, replies[e.line]
 			return
 		}
@@ -377,14 +377,14 @@ func c15TwinGroups(rng *rand.Rand, typ uint16) [][]coal.Rec {
 	for i := 0; i < 2+rng.Intn(2); i++ {
 		seq := uint32(100 + i)
 		ms := int64(1600000000000 + i)
-		_, body := genBody(rng, kOther, 0)
-		if typ == tAVC {
-			_, body = genBody(rng, kAvc, 0)
+		_, body := coGenBody(rng, coKOther, 0)
+		if typ == coTAVC {
+			_, body = coGenBody(rng, coKAvc, 0)
 		}
 		g := []coal.Rec{
 			{Typ: typ, Seq: seq, Ms: ms, Body: body},
 			{Typ: tSYSCALL, Seq: seq, Ms: ms, Body: fmt.Sprintf("arch=c000003e syscall=%s success=%s exit=0 items=0 ppid=1 pid=%d auid=%s uid=%s gid=%s ses=2 comm=\"x\" exe=\"/bin/x\"",
-				c15Syscalls[perm[i]], pick(rng, []string{"yes", "no"}), 7+i, pick(rng, idVals), pick(rng, idVals), pick(rng, idVals))},
+				c15Syscalls[perm[i]], coPick(rng, []string{"yes", "no"}), 7+i, coPick(rng, coIdVals), coPick(rng, coIdVals), coPick(rng, coIdVals))},
 		}
 		if rng.Intn(3) == 0 {
 			g = append(g, coal.Rec{Typ: tPROCTITLE, Seq: seq, Ms: ms, Body: "proctitle=78"})
@@ -416,16 +416,16 @@ func genC15Case(rng *rand.Rand) C15Case {
 		var g C09Case
 		switch rng.Intn(8) {
 		case 0:
-			g = genSingle(rng, otherTypes[rng.Intn(len(otherTypes))])
+			g = coGenSingle(rng, coOtherTypes[rng.Intn(len(coOtherTypes))])
 		case 1:
-			g = genMalformed(rng)
+			g = coGenMalformed(rng)
 		case 2:
-			g = genCollision(rng, rng.Intn(nKinds), 1+rng.Intn(nKinds-1), pick(rng, hotKeys))
+			g = coGenCollision(rng, rng.Intn(coNKinds), 1+rng.Intn(coNKinds-1), coPick(rng, coHotKeys))
 		default:
-			g = genGroup(rng, permKinds(rng, subsetKinds(rng, rng.Intn(64))), 0.3, 0.08)
+			g = coGenGroup(rng, coPermKinds(rng, coSubsetKinds(rng, rng.Intn(64))), 0.3, 0.08)
 		}
 		if rng.Intn(6) == 0 {
-			addEdits(rng, &g)
+			coAddEdits(rng, &g)
 		}
 		if g.Recs == nil {
 			g.Recs = []coal.Rec{}
@@ -433,7 +433,7 @@ func genC15Case(rng *rand.Rand) C15Case {
 		c.Groups = append(c.Groups, g.Recs)
 	}
 	if rng.Intn(3) == 0 {
-		c.Groups = append(c.Groups, c15TwinGroups(rng, otherTypes[rng.Intn(len(otherTypes))])...)
+		c.Groups = append(c.Groups, c15TwinGroups(rng, coOtherTypes[rng.Intn(len(coOtherTypes))])...)
 	}
 	c.Ops = c15RandomOps(rng, len(c.Groups), 4+rng.Intn(9))
 	return c
@@ -478,11 +478,11 @@ func c15ConcPool(rng *rand.Rand) [][]coal.Rec {
 				c15Syscalls[i%len(c15Syscalls)], 30000+i, 40000+i, 50000+i, 60000+i)}})
 	}
 	// record-type events with different syscalls, for every record type that has a normalisation
-	for _, t := range otherTypes {
+	for _, t := range coOtherTypes {
 		pool = append(pool, c15TwinGroups(rng, t)[:2]...)
 	}
 	for i := 0; i < 24; i++ {
-		pool = append(pool, genGroup(rng, permKinds(rng, subsetKinds(rng, rng.Intn(64))), 0.2, 0.05).Recs)
+		pool = append(pool, coGenGroup(rng, coPermKinds(rng, coSubsetKinds(rng, rng.Intn(64))), 0.2, 0.05).Recs)
 	}
 	return pool
 }
@@ -706,7 +706,7 @@ func c15Family(ctx *Ctx) error {
 	rng := ctx.Rng
 	// 2. for every record type: events of that type with different syscalls, held together
 	for rep := 0; rep < ctx.N(1, 6) && !stop(); rep++ {
-		for _, t := range otherTypes {
+		for _, t := range coOtherTypes {
 			if stop() {
 				break
 			}
